@@ -496,6 +496,60 @@ def s7(prog, ctx, fns):
     ctx.floor("C04.S7 realloc sites", n, 6)
 
 
+def _backward_scan(f, cfg, w, hb, cond, body):
+    """None when the loop is not of the form; ("ok"|"fail"|"unknown", text) otherwise"""
+    if cond is None or body is None or w.k != "WhileStmt":
+        return None
+    decs = [(render(lhs), st) for lhs, rhs, st, kind in query.stores(f) if st.within(w) and (
+        (kind == "++" and st.j.get("op") == "--") or (kind == "op=" and st.j.get("op") == "-=" and (rhs.const_value() or 0) >= 1))]
+    for v, dst in decs:
+        lhs0 = dst.children[0].strip()
+        if lhs0.k != "DeclRefExpr" or lhs0.j.get("dk") not in ("local", "param") or "*" in (lhs0.j.get("ct") or lhs0.j.get("t") or ""):
+            continue
+        subs = [x for x in cond.walk() if x.k == "ArraySubscriptExpr" and re.fullmatch(re.escape(v) + r"( - [0-9]+)?", render(x.children[1]))]
+        if not subs:
+            continue
+        other = [st for lhs, rhs, st, kind in query.stores(f) if st.within(w) and render(lhs) == v and st is not dst]
+        if other:
+            return ("unknown", "`%s` is stepped back and also written otherwise in the loop" % v)
+        m = re.fullmatch(re.escape(v) + r"(?: - ([0-9]+))?", render(subs[0].children[1]))
+        off = int(m.group(1) or 0)
+        # a lower bound among the conjuncts in front of the subscript
+        bounded = False
+
+        def conj(e):
+            e2 = e.strip()
+            if e2.k == "BinaryOperator" and e2.j.get("op") == "&&":
+                return conj(e2.children[0]) + conj(e2.children[1])
+            return [e2]
+        for cj in conj(cond):
+            if any(x is subs[0] for x in cj.walk()):
+                break
+            t9 = render(cj)
+            m2 = re.fullmatch(re.escape(v) + r" (>|>=|!=) ([0-9]+)", t9) or None
+            if t9 == v and off <= 1:
+                bounded = True
+            elif m2:
+                low = int(m2.group(2)) + (1 if m2.group(1) in (">", "!=") else 0)      # the smallest value v can have when the subscript is read
+                if m2.group(1) == "!=" and int(m2.group(2)) != 0:
+                    continue
+                if low - off >= 0:
+                    bounded = True
+            m3 = re.fullmatch(r"([0-9]+) (<|<=) " + re.escape(v), t9)
+            if m3 and int(m3.group(1)) + (1 if m3.group(2) == "<" else 0) - off >= 0:
+                bounded = True
+        if bounded:
+            return ("ok", "`%s` counts down and is tested against its lower bound before `%s` is read" % (v, render(subs[0])))
+        # something established before the loop (a test of the length, of the first character, ...)?  not followed
+        req = cfg.required_literals(hb)
+        arr = render(subs[0].children[0])
+        if any(v in l.atom or arr in l.atom for l in req if l is not None and l.atom not in (arr,)):
+            return ("unknown", "backward scan over `%s` without a bound in the condition; a test before the loop may provide one" % arr)
+        return ("fail", "`%s` is read while `%s` counts down, with nothing that stops at the start of the text: for a text of blanks only (or an empty one) "
+                        "the scan reads in front of the buffer" % (render(subs[0]), v))
+    return None
+
+
 def s8(prog, ctx, fns, exc):
     tol = {r["key"]: r["reason"] for r in exc["loops"]}
     n = 0
@@ -608,6 +662,18 @@ def s8(prog, ctx, fns, exc):
                     ctx.fail("S8", inst, w.where, "the scan only stops at a particular character, not at the end of the string", key="nostop:" + key)
                 else:
                     ctx.inconclusive("S8", inst, w.where, "for loop not recognised: %s" % sh.describe())
+                continue
+            # a scan from the end towards the start: `while (isspace(s[n - 1])) n--;` needs its own lower bound - the characters tested
+            # do not provide one (a text of blanks only, or an empty one)
+            back = _backward_scan(f, cfg, w, hb, cond, body)
+            if back is not None:
+                kind9, why9 = back
+                if kind9 == "ok":
+                    ctx.ok("S8", inst, w.where, why9)
+                elif kind9 == "fail":
+                    ctx.fail("S8", inst, w.where, why9, key="backscan:%s" % f.name)
+                else:
+                    ctx.inconclusive("S8", inst, w.where, why9)
                 continue
             # while / do loops (and for loops that are not counting loops): which variable drives the loop?
             key = "%s:%s" % (f.name, ctext)
@@ -835,7 +901,92 @@ def run(prog, ctx):
             own_rules.report(ctx, "S6", n, a, only_kinds=("double-free", "use-after-free", "free-after-move", "dangling-out-pointer", "null-object"))
     s7(prog, ctx, fns)
     s8(prog, ctx, fns, exc)
+    s10_counter_width(prog, ctx, fns)
+    s11_stack_alloc(prog, ctx, fns, "S11")
     s9(prog, ctx, reach)
+
+
+def s11_stack_alloc(prog, ctx, fns, rule):
+    """alloca() / strdupa() / strndupa(): the size must not depend on the length of configuration text (section names, keys, values -
+    unbounded, and listed from files); sizes computed from file and directory names are limited by the operating system."""
+    import json as _json
+    import os as _os
+    from sa.facts import VERIF as _V
+    names = set(_json.load(open(_os.path.join(_V, "rules", "tables", "buffers.json")))["content_params"]["names"])
+    n = 0
+    for f in fns:
+        pn = set(f.param_names())
+        for c in f.calls(("alloca", "__builtin_alloca", "__builtin_alloca_with_align")):
+            n += 1
+            args = c.call_args()
+            if not args:
+                continue
+            # the strings whose length enters the size, through locals (`__len = strlen(__old) + 1`, `__old = group`)
+            seen, todo, roots = set(), [args[0]], set()
+            depth = 0
+            while todo and depth < 40:
+                depth += 1
+                e = todo.pop()
+                for x in e.walk():
+                    if x.k == "DeclRefExpr" and x.j.get("dk") in ("local", "param"):
+                        nm = x.j["name"]
+                        if nm in seen:
+                            continue
+                        seen.add(nm)
+                        if x.j.get("dk") == "param" or nm in pn:
+                            roots.add(nm)
+                        for l9, r9, s9 in f.assignments():
+                            if (l9["name"] if isinstance(l9, dict) else render(l9)) == nm and r9 is not None:
+                                todo.append(r9)
+            const = args[0].const_value()
+            bad = sorted(r for r in roots if r in names)
+            inst = "%s: stack allocation of %s bytes" % (f.name, render(args[0])[:50])
+            if const is not None:
+                ctx.ok(rule, inst, c.where, "constant size")
+            elif bad:
+                ctx.fail(rule, inst, c.where,
+                         "the size follows the length of `%s` - configuration text of any length (a section name or key listed from a file): a name of a few "
+                         "megabytes overruns the stack" % bad[0], key="alloca:%s:%s" % (f.name, bad[0]))
+            else:
+                ctx.ok(rule, inst, c.where, "sized by %s: file / directory names, limited by the operating system" % (sorted(roots) or "no parameter"))
+    ctx.counts["%s stack allocations" % rule] = n
+
+
+NARROW = ("unsigned char", "signed char", "char", "short", "unsigned short", "_Bool", "bool")
+
+
+def s10_counter_width(prog, ctx, fns):
+    """S10: what counts elements that come from the input (entries, sections, directories: x++ per element) and is then used as a
+    subscript or in an allocation size has at least the width of int.  An 8 or 16 bit counter wraps at 256 / 65536 elements, the array
+    is shrunk to the wrapped size and the next store lands outside it."""
+    n = 0
+    for f in fns:
+        for lhs, rhs, st, kind in query.stores(f):
+            if not (kind == "++" and st.j.get("op") == "++") and not (kind == "op=" and st.j.get("op") == "+="):
+                continue
+            l0 = lhs.strip()
+            ct = (l0.j.get("ct") or l0.j.get("t") or "").replace("const ", "").replace("volatile ", "").strip()
+            if l0.k not in ("MemberExpr", "DeclRefExpr") or "*" in ct or "[" in ct:
+                continue
+            n += 1
+            if ct not in NARROW:
+                continue
+            v = render(lhs)
+            uses = []
+            for x in f.walk():
+                if x.k == "ArraySubscriptExpr" and re.search(r"(?<![\w>.])" + re.escape(v) + r"(?![\w])", render(x.children[1])):
+                    uses.append(x)
+                elif x.k == "CallExpr" and x.j.get("callee") in ("malloc", "calloc", "realloc", "reallocarray") and any(
+                        re.search(r"(?<![\w>.])" + re.escape(v) + r"(?![\w])", render(a)) for a in x.call_args()):
+                    uses.append(x)
+            if uses:
+                ctx.fail("S10", "%s: counter `%s` is wide enough" % (f.name, v), st.where,
+                         "`%s` has type %s and is incremented per element, then used in `%s`: at %d elements it wraps, the array is resized to the wrapped "
+                         "count and the next element is stored outside it" % (v, ct, render(uses[0])[:70], 256 if "char" in ct or "ool" in ct else 65536),
+                         key="narrow-counter:%s:%s" % (f.name, v))
+    if n:
+        ctx.ok("S10", "element counters used as subscripts or sizes have at least the width of int", "lib/", "%d incremented counters inspected" % n)
+    ctx.floor("C04.S10 incremented counters", n, 10)
 
 
 def s9(prog, ctx, reach):
